@@ -15,6 +15,7 @@ pub(crate) const MODE_PROMOTED: u8 = 3; //  guarded float opcode vs generic on f
 pub(crate) const MODE_NOFLOAT: u8 = 4; //   any Value except floats (float * / % kernels do not finish in CBMC)
 pub(crate) const MODE_NONAN: u8 = 5; //     any Value except NaN (generic Eq/Ne compare identical bits as equal; typed forms follow IEEE)
 pub(crate) const MODE_PROMOTED_NONAN: u8 = 6;
+pub(crate) const MODE_INTS_SMALL_RIGHT: u8 = 8; // ints, right operand within -16..=16 (two full-width symbolic multipliers/dividers do not finish)
 pub(crate) const MODE_PROMOTED_SMALL_RIGHT: u8 = 7; // like MODE_PROMOTED, right operand an int in -8..=8 or one of 0.5, 2.0, -1.5, inf
 
 pub(crate) struct PairIn {
@@ -61,6 +62,11 @@ pub(crate) fn pair_input(mode: u8) -> PairIn {
     }
     let b = base + ((abc >> 8) & 0xFF) as usize;
     let c = base + (abc & 0xFF) as usize;
+    if mode == MODE_INTS_SMALL_RIGHT {
+        kani::assume(b < VERIF_REGS && c < VERIF_REGS);
+        let (vb, vc) = (Value::from_raw(regs[b]), Value::from_raw(regs[c]));
+        kani::assume(vb.is_int() && matches!(vc.as_int(), Some(i) if i >= -16 && i <= 16));
+    }
     if mode == MODE_INTS || mode == MODE_FLOATS {
         // the operand registers the instruction names hold the type the opcode is named for
         kani::assume(b < VERIF_REGS && c < VERIF_REGS);
